@@ -8,6 +8,7 @@
 mod abortchild;
 mod cmps;
 mod ctors;
+mod dpanic;
 mod layout;
 mod mech;
 mod ptrs;
